@@ -295,6 +295,14 @@ fn write_entry(
     }).collect::<WriteResult<Vec<_>>>()?;
 
     let mut texture_offset = 0;
+    if entry.texture_data.is_some() && entry.path.starts_with("@") {
+        // (the reader rejects such an entry; these names never refer to an image file)
+        return Err(emitter.emit(error!(
+            message("entry '{}' cannot have image data", entry.path),
+            primary(entry.path, "names beginning with '@' have no embedded image"),
+            note("use 'has_data: false' for this entry"),
+        )));
+    }
     if let Some(texture_data) = &entry.texture_data {
         let texture_metadata = entry.texture_metadata.as_ref().expect("always Some if texture_data is");
         texture_offset = w.pos()? - entry_pos;
